@@ -160,26 +160,50 @@ FORBIDDEN = re.compile(r"\b(Admitted|admit|Axiom|Axioms|Parameter|Parameters|Con
 _comment = re.compile(r"\(\*.*?\*\)", re.S)
 
 
-def hygiene():
-    """no axioms / admits / checker switches anywhere in the development (comments stripped)"""
+def closure(pid):
+    """the .v files Props/<pid>.v depends on (transitively, inside this development), by scanning Require lines"""
+    seen, todo = set(), [os.path.join("Props", f"{pid}.v")]
+    while todo:
+        rel = todo.pop()
+        if rel in seen:
+            continue
+        p = os.path.join(COQ, rel)
+        if not os.path.exists(p):
+            continue
+        seen.add(rel)
+        txt = _comment.sub("", open(p).read())
+        for m in re.finditer(r"(?s)\bRequire\s+(?:Import\s+|Export\s+)?(.*?)\.(?=\s|$)", txt):
+            for name in m.group(1).split():
+                if name.startswith("TD."):
+                    name = name[3:]
+                parts = name.split(".")
+                if len(parts) == 2 and parts[0] in ("Lib", "Spec", "Model", "Proofs", "Gen", "Props", "Extract"):
+                    todo.append(os.path.join(parts[0], parts[1] + ".v"))
+    return sorted(seen)
+
+
+def hygiene(pid=None):
+    """no axioms / admits / checker switches in the development the property depends on (comments stripped);
+    with pid=None the whole coq/ tree is scanned"""
     bad = []
-    for root, _, files in os.walk(COQ):
-        for f in files:
-            if f.endswith(".v"):
-                p = os.path.join(root, f)
-                txt = _comment.sub("", open(p).read())
-                for m in FORBIDDEN.finditer(txt):
-                    bad.append(f"{os.path.relpath(p, COQ)}: {m.group(0)}")
-                # Variable/Hypothesis outside a section
-                depth = 0
-                for line in txt.split("\n"):
-                    s = line.strip()
-                    if re.match(r"Section\b", s):
-                        depth += 1
-                    elif re.match(r"End\b", s) and depth > 0:
-                        depth -= 1
-                    elif depth == 0 and re.match(r"(Variable|Variables|Hypothesis|Hypotheses|Context)\b", s):
-                        bad.append(f"{os.path.relpath(p, COQ)}: {s.split()[0]} outside a section")
+    if pid is None:
+        files = [os.path.relpath(os.path.join(r, f), COQ) for r, _, fs in os.walk(COQ) for f in fs if f.endswith(".v")]
+    else:
+        files = closure(pid)
+    for rel in files:
+        p = os.path.join(COQ, rel)
+        txt = _comment.sub("", open(p).read())
+        for m in FORBIDDEN.finditer(txt):
+            bad.append(f"{rel}: {m.group(0)}")
+        depth = 0
+        for line in txt.split("\n"):
+            s = line.strip()
+            if re.match(r"Section\b", s):
+                depth += 1
+            elif re.match(r"End\b", s) and depth > 0:
+                depth -= 1
+            elif depth == 0 and re.match(r"(Variable|Variables|Hypothesis|Hypotheses|Context)\b", s):
+                bad.append(f"{rel}: {s.split()[0]} outside a section")
     return bad
 
 
@@ -204,7 +228,7 @@ def prove(pid):
     names = re.findall(r"^\s*Theorem\s+([A-Za-z0-9_']+)", txt, re.M)
     res["obligations"] = names
     printed = re.findall(r"Print Assumptions\s+([A-Za-z0-9_']+)", txt)
-    bad = hygiene()
+    bad = hygiene(pid)
     if bad:
         res["failed"] = [(n, "hygiene: " + "; ".join(bad[:5])) for n in names]
         return res
